@@ -6,6 +6,7 @@ clang on demand and cached under /verif/.cache keyed by the sha256 of the
 *preprocessed* source plus flags, so an edit to /repo always invalidates it.
 """
 import hashlib
+import re
 import json
 import os
 import pickle
@@ -235,6 +236,28 @@ class TU:
             elif k == 'VarDecl':
                 self.vars[name] = d
                 self.decls.setdefault(name, d)
+
+    def desugar(self, qt, depth=0):
+        """resolve typedef names anywhere inside a type spelling (clang only desugars the top level)"""
+        if depth > 8 or not qt:
+            return qt
+        changed = [False]
+
+        def rep(m):
+            w = m.group(0)
+            td = self.typedefs.get(w)
+            if td is None or w in ('const', 'volatile', 'struct', 'union', 'enum', 'unsigned', 'signed'):
+                return w
+            t = td.get('type') or {}
+            u = t.get('desugaredQualType') or t.get('qualType')
+            if not u or u == w:
+                return w
+            changed[0] = True
+            return u
+        out = re.sub(r'[A-Za-z_][A-Za-z_0-9]*', rep, qt)
+        if changed[0]:
+            return self.desugar(out, depth + 1)
+        return out
 
     def fn(self, name):
         f = self.functions.get(name)
